@@ -100,6 +100,25 @@ fn h2f_prime<const ML: usize, const DL: usize>() {
     core::mem::forget(hasher);
     assert!(ok);
 }
+/// DST length boundary (RFC 9380 5.3.3): a tag of at most 255 bytes is used verbatim, a longer one is replaced by
+/// H("H2C-OVERSIZE-DST-" || tag).  GROUND obligation (fixed tag and message): with a symbolic byte ahead of a 255-step digest loop the query did not finish in 600 s
+fn h2f_dst_boundary<const DL: usize>() {
+    let msg: [u8; 1] = [0x6d];
+    let mut dst = [0x41u8; DL];
+    dst[DL - 1] = 0x7a;
+    let hasher = <DefaultFieldHasher<Toy, 28> as HashToField<PF13>>::new(&dst);
+    let out: [PF13; 2] = hasher.hash_to_field::<2>(&msg);
+    let u = if DL > 255 {
+        let d = h_bytes(&[b"H2C-OVERSIZE-DST-", &dst]);
+        ref_expand8(&msg, &d)
+    } else {
+        ref_expand8(&msg, &dst)
+    };
+    crate::cover!(true);
+    let ok = out[0].val() == os2ip_mod(&u[0..4], 13) && out[1].val() == os2ip_mod(&u[4..8], 13);
+    core::mem::forget(hasher);
+    assert!(ok);
+}
 /// hash_to_field::<1> over Fp2 = F_13[u]/(u^2-2): one element = two base-field coordinates from consecutive 4-byte chunks
 fn h2f_fp2<const ML: usize>() {
     let msg: [u8; ML] = any();
@@ -172,6 +191,12 @@ crate::harnesses! { REG;
     /// quick required | hash_to_field::<2> over F_13: ALL 2-byte messages with the empty DST
     #[unwind(12)]
     fn c13_h2f_prime_empty_dst() { h2f_prime::<2, 0>() }
+    /// quick required | ground: hash_to_field::<2> over F_13 with a fixed DST of EXACTLY 255 bytes (the longest tag used verbatim) == reference with DST_prime = DST || 0xff
+    #[unwind(270)]
+    fn c13_h2f_dst_255() { h2f_dst_boundary::<255>() }
+    /// quick required | ground: hash_to_field::<2> over F_13 with a fixed DST of 256 bytes (the shortest oversize tag) == reference with DST replaced by H("H2C-OVERSIZE-DST-" || DST)
+    #[unwind(270)]
+    fn c13_h2f_dst_256() { h2f_dst_boundary::<256>() }
     /// thorough required timeout=2400 | hash_to_field::<2> over F_13 with a 4-byte DST, ALL 2-byte messages
     #[unwind(12)]
     fn c13_h2f_prime_dst4() { h2f_prime::<2, 4>() }
